@@ -5,6 +5,7 @@ Everything here is dual mode (pyvc.speclib): the same definitions are evaluated 
 exact rationals by the native bounded checks and on z3 terms by the VC generator.
 """
 from fractions import Fraction
+from pyvc.speclib import memo, define
 from pyvc.speclib import (isum, rsum, cnt, ite, implies, iff, And, Or, Not, forall, exists, length, isin, sqrt, mkseq, mkset,
                           pow10, logb, absv, toreal, fdiv, maxv, minv, HAVE_Z3)
 
@@ -22,14 +23,17 @@ def charge(c):
     return ite(isin(c, POSC), 1, ite(isin(c, NEGC), -1, 0))
 
 
+@memo
 def npos(s, lo, hi):
     return cnt(lambda j: isin(s[j], POSC), lo, hi)
 
 
+@memo
 def nneg(s, lo, hi):
     return cnt(lambda j: isin(s[j], NEGC), lo, hi)
 
 
+@memo
 def nneut(s, lo, hi):
     return cnt(lambda j: Not(isin(s[j], POSC + NEGC)), lo, hi)
 
@@ -41,25 +45,30 @@ def sigma_of(p, n, L):
     return ite(p + n == 0, Fraction(0), lambda: (fp - fn) * (fp - fn) / (fp + fn))
 
 
+@memo
 def sigma_seq(s, N):
     return sigma_of(npos(s, 0, N), nneg(s, 0, N), N)
 
 
+@memo
 def blob_sigma(s, i, b):
     return sigma_of(npos(s, i, i + b), nneg(s, i, i + b), b)
 
 
+@memo
 def dform_upto(s, N, b, k):
     """sum over the first k blobs of (sigma_seq - sigma_blob)^2 / nblobs"""
     nb = N - b + 1
     return rsum(lambda i: (sigma_seq(s, N) - blob_sigma(s, i, b)) * (sigma_seq(s, N) - blob_sigma(s, i, b)) / toreal(nb), 0, k)
 
 
+@memo
 def dform(s, N, b):
     """mean squared deviation of the blob sigmas (blob size b) from the sequence sigma; 0 if b > N"""
     return ite(N - b + 1 <= 0, Fraction(0), lambda: dform_upto(s, N, b, N - b + 1))
 
 
+@memo
 def delta_spec(s, N):
     return (dform(s, N, 5) + dform(s, N, 6)) / 2
 
@@ -372,6 +381,7 @@ def filtered_ok(r, u, k):
                forall(lambda j: implies(is_aa(u[j]), r[n_aa(u, 0, j)] == u[j]), 0, k))
 
 
+@memo
 def upper_seq(s):
     return mkseq(lambda j: upper_char(s[j]), length(s), 'char')
 
@@ -416,3 +426,102 @@ def n_star(u, lo, hi):
 
 
 SPEC.update(dict(keep_file=keep_file, skip_file=skip_file, n_keep=n_keep, kept_ok=kept_ok, n_star=n_star))
+
+
+# ----------------------------------------------------------------------------- C01/C03: delta-max and kappa
+from pyvc.speclib import rmax, rep, cat
+
+
+@memo
+def D_of(text):
+    """delta of the sequence object built from a reduced-alphabet candidate string"""
+    u = upper_seq(text)
+    return delta_spec(u, length(text))
+
+
+@memo
+def dmax_one_type(ch, c, z, N):
+    """one charge type: the minority block slid through the majority"""
+    return ite(z > c,
+               lambda: rmax(lambda pos: D_of(cat(rep('0', pos), rep(ch, c), rep('0', z - pos))), 0, (N - c) + 1),
+               lambda: rmax(lambda pos: D_of(cat(rep(ch, pos), rep('0', z), rep(ch, c - pos))), 0, (N - z) + 1))
+
+
+@memo
+def dmax_no_neutrals(p, n, N):
+    return ite(p > n,
+               lambda: rmax(lambda pos: D_of(cat(rep('+', pos), rep('-', n), rep('+', p - pos))), 0, (N - n) + 1),
+               lambda: rmax(lambda pos: D_of(cat(rep('-', pos), rep('+', p), rep('-', n - pos))), 0, (N - p) + 1))
+
+
+@memo
+def cand_three(p, n, z, s, mid):
+    """neutrals split start / middle / end around a positive and a negative block"""
+    return cat(cat(cat(cat(rep('0', s), rep('+', p)), rep('0', mid)), rep('-', n)), rep('0', z - s - mid))
+
+
+@define('dmax_row_many', ['int', 'int', 'int', 'int'], 'real')
+def dmax_row_many(p, n, z, s):
+    """>= 18 neutrals, s of them at the start: best over 0..6 neutrals at the end"""
+    return rmax(lambda e: D_of(cand_three(p, n, z, s, z - s - e)), 0, 7)
+
+
+@define('dmax_row_few', ['int', 'int', 'int', 'int'], 'real')
+def dmax_row_few(p, n, z, mid):
+    """< 18 neutrals, mid of them between the blocks: best over every split of the rest between start and end"""
+    return rmax(lambda s: D_of(cand_three(p, n, z, s, mid)), 0, z - mid + 1)
+
+
+@memo
+def dmax_many_neutrals_upto(p, n, z, s_upto):
+    return rmax(lambda s: dmax_row_many(p, n, z, s), 0, s_upto)
+
+
+@memo
+def dmax_few_neutrals_upto(p, n, z, mid_upto):
+    return rmax(lambda mid: dmax_row_few(p, n, z, mid), 0, mid_upto)
+
+
+@memo
+def dmax_spec(p, n, z, N):
+    """largest delta among the documented family of maximally segregated arrangements of (p, n, z), N = p+n+z"""
+    return ite(p + n == 0, Fraction(0),
+               ite(p == 0, lambda: dmax_one_type('-', n, z, N),
+                   ite(n == 0, lambda: dmax_one_type('+', p, z, N),
+                       ite(z == 0, lambda: dmax_no_neutrals(p, n, N),
+                           ite(z >= 18, lambda: dmax_many_neutrals_upto(p, n, z, 7),
+                               lambda: dmax_few_neutrals_upto(p, n, z, z + 1))))))
+
+
+@memo
+def dmax_seq(s, N):
+    return dmax_spec(npos(s, 0, N), nneg(s, 0, N), nneut(s, 0, N), N)
+
+
+def kappa_of(delta, dmax):
+    """-1 when delta-max is 0; else the ratio, a ratio in (1, 1.1) being reported as exactly 1"""
+    return ite(dmax == 0, -1, lambda: ite(And(delta / dmax > 1, delta / dmax < Fraction(11, 10)), Fraction(1), delta / dmax))
+
+
+SPEC.update(dict(D_of=D_of, dmax_one_type=dmax_one_type, dmax_no_neutrals=dmax_no_neutrals, cand_three=cand_three,
+                 dmax_many_neutrals_upto=dmax_many_neutrals_upto, dmax_few_neutrals_upto=dmax_few_neutrals_upto, dmax_row_many=dmax_row_many, dmax_row_few=dmax_row_few,
+                 dmax_spec=dmax_spec, dmax_seq=dmax_seq, kappa_of=kappa_of))
+
+
+def kappa_seq(s, N):
+    """kappa of a sequence as the statement defines it"""
+    return kappa_of(delta_spec(s, N), dmax_seq(s, N))
+
+
+def dmax_inv(o):
+    """cache part of the class invariant: delta-max is unset (-1) or holds the composition's value"""
+    f = o.fields
+    return Or(f['dmax'] == -1, f['dmax'] == dmax_seq(f['seq'], f['len']))
+
+
+def recoded(text, s, N, f):
+    """text is, residue by residue, the image of s under the recoding f"""
+    return And(length(text) == N, forall(lambda j: text[j] == f(s[j]), 0, N))
+
+
+SPEC.update(dict(kappa_seq=kappa_seq, dmax_inv=dmax_inv, recoded=recoded))
